@@ -95,15 +95,27 @@ Proof.
   intros x [->|Hx]; auto.
 Qed.
 
+Lemma in_set_at_other {A} (v : list A) : forall k i x l, nth_error v k = Some x -> k <> i -> In x (set_at v i l).
+Proof.
+  induction v as [|z v IH]; intros [|k] [|i] x l Hk Hne; cbn in *; try discriminate; try congruence.
+  - inv Hk. now left.
+  - right. eapply nth_error_In; eauto.
+  - right. eapply IH; eauto.
+Qed.
+Lemma in_set_at_self {A} (v : list A) : forall i m l, nth_error v i = Some m -> In l (set_at v i l).
+Proof.
+  induction v as [|z v IH]; intros [|i] m l Hi; cbn in *; try discriminate; auto. right. eapply IH; eauto.
+Qed.
+
 Lemma push_bounded_ghost v l v' d :
-  push_bounded v l = ROk v' ->
+  push_bounded v l = ROk v' -> (length v <= cap_segs)%nat ->
   (forall x t, In x v -> d = Some t -> lmc x <= t) -> (d <> None -> length v = cap_segs) ->
   exists d', dle d' d /\
     (forall x t, In x v' -> d' = Some t -> lmc x <= t) /\ (d' <> None -> length v' = cap_segs) /\
     (forall x, In x v' -> In x v \/ x = l) /\
     (forall x, In x v \/ x = l -> In x v' \/ exists t, d' = Some t /\ t <= lmc x).
 Proof.
-  intros E K3 K5. unfold push_bounded in E. destruct (Nat.ltb_spec (length v) cap_segs).
+  intros E Hle K3 K5. unfold push_bounded in E. destruct (Nat.ltb_spec (length v) cap_segs).
   - inv E. assert (d = None) by (destruct d; auto; exfalso; assert (length v = cap_segs) by (apply K5; discriminate); lia). subst d.
     exists None. split; [apply dle_refl|]. repeat split; try congruence.
     + intros x Hx. apply in_app_or in Hx as [?|[->|[]]]; auto.
@@ -116,16 +128,14 @@ Proof.
       * intros x t Hx Et. apply in_set_at in Hx as [->|Hx].
         -- destruct d as [t0|]; cbn in Et; inv Et; [pose proof (K3 m t0 Hm eq_refl)|]; lia.
         -- pose proof (Hmax x Hx). destruct d as [t0|]; cbn in Et; inv Et; [pose proof (K3 x t0 Hx eq_refl)|]; lia.
-      * intros _. rewrite set_at_length. pose proof (push_bounded_ok (fun _ => True) v l) as Hp. lia.
+      * intros _. rewrite set_at_length. lia.
       * intros x Hx. apply in_set_at in Hx as [->|Hx]; auto.
       * intros x [Hx| ->].
         -- (* either still there, or it was the evicted maximum *)
            destruct (In_nth_error _ _ Hx) as [k Hk]. destruct (Nat.eq_dec k i) as [->|Hne].
            ++ right. assert (x = m) by congruence. subst x. destruct d as [t0|]; cbn; eexists; (split; [reflexivity|lia]).
-           ++ left. clear - Hk Hne Ha. revert k i Hk Hne Ha. induction v as [|z v IH]; intros [|k] [|i] Hk Hne Ha; cbn in *; try discriminate; try congruence; auto.
-              right. eapply IH; eauto.
-        -- left. clear - Ha. revert i Ha. induction v as [|z v IH]; intros [|i] Ha; cbn in *; try discriminate; auto.
-           right. eapply IH; eauto.
+           ++ left. eapply in_set_at_other; eauto.
+        -- left. eapply in_set_at_self; eauto.
     + exists (dmin d (lmc l)). split; [apply dle_dmin|]. repeat split; auto.
       * intros x t Hx Et. pose proof (Hmax x Hx). destruct d as [t0|]; cbn in Et; inv Et; [pose proof (K3 x t0 Hx eq_refl)|]; lia.
       * intros _. lia.
@@ -133,17 +143,19 @@ Proof.
 Qed.
 
 Lemma push_bounded_all_ghost ls : forall v v' d,
-  push_bounded_all v ls = ROk v' ->
+  push_bounded_all v ls = ROk v' -> (length v <= cap_segs)%nat ->
   (forall x t, In x v -> d = Some t -> lmc x <= t) -> (d <> None -> length v = cap_segs) ->
   exists d', dle d' d /\
     (forall x t, In x v' -> d' = Some t -> lmc x <= t) /\ (d' <> None -> length v' = cap_segs) /\
     (forall x, In x v' -> In x v \/ In x ls) /\
     (forall x, In x v \/ In x ls -> In x v' \/ exists t, d' = Some t /\ t <= lmc x).
 Proof.
-  induction ls as [|l ls IH]; intros v v' d E K3 K5; cbn [push_bounded_all] in E.
+  induction ls as [|l ls IH]; intros v v' d E Hle K3 K5; cbn [push_bounded_all] in E.
   - inv E. exists d. split; [apply dle_refl|]. repeat split; auto. intros x [?|[]]; auto.
-  - apply rbind_ok in E as (v1 & E1 & E). destruct (push_bounded_ghost v l v1 d E1 K3 K5) as (d1 & L1 & A1 & B1 & C1 & D1).
-    destruct (IH v1 v' d1 E A1 B1) as (d2 & L2 & A2 & B2 & C2 & D2).
+  - apply rbind_ok in E as (v1 & E1 & E). destruct (push_bounded_ghost v l v1 d E1 Hle K3 K5) as (d1 & L1 & A1 & B1 & C1 & D1).
+    assert (Hle1 : (length v1 <= cap_segs)%nat).
+    { destruct (push_bounded_ok (fun _ => True) v l) as (v2 & E2 & _ & Hl2 & _); auto; [apply Forall_forall; auto|]. rewrite E1 in E2. inv E2. auto. }
+    destruct (IH v1 v' d1 E Hle1 A1 B1) as (d2 & L2 & A2 & B2 & C2 & D2).
     exists d2. split; [eapply dle_trans; eauto|]. repeat split; auto.
     + intros x Hx. destruct (C2 x Hx) as [H|H]; [|right; now right]. destruct (C1 x H) as [?| ->]; auto. right. now left.
     + intros x Hx. assert (Hx1 : In x v \/ x = l \/ In x ls) by (destruct Hx as [?|[->|?]]; auto).
@@ -166,13 +178,13 @@ Proof. intros H [?|[?|[?|[?|?]]]]; unfold alt; auto 6. Qed.
 
 (** moving pending entries above [t] into [collected] *)
 Lemma flush_step X s d t p' ls c' pv :
-  rep_ok (f_pending s) -> pinv X s d ->
+  rep_ok (f_pending s) -> (length (f_collected s) <= cap_segs)%nat -> pinv X s d ->
   drain_above (f_pending s) t = Ok (p', ls) -> push_bounded_all (f_collected s) ls = ROk c' ->
   exists d1, dle d1 d /\ pinv X (with_pc s p' c' pv) d1.
 Proof.
-  intros Hpr Hp Ed Ec. pose proof Hp as [K1 K2 K3 K5].
+  intros Hpr Hcl Hp Ed Ec. pose proof Hp as [K1 K2 K3 K5].
   destruct (q_drain_above (f_pending s) t Hpr) as (p2 & ls2 & E2 & _ & Hin2 & Hls2 & _). rewrite Ed in E2. inv E2.
-  destruct (push_bounded_all_ghost ls2 (f_collected s) c' d Ec K3 K5) as (d1 & L1 & A1 & B1 & C1 & D1).
+  destruct (push_bounded_all_ghost ls2 (f_collected s) c' d Ec Hcl K3 K5) as (d1 & L1 & A1 & B1 & C1 & D1).
   exists d1. split; auto. eapply pinv_step; [exact Hp| | |exact A1|exact B1].
   - intros y [Hy|Hy]; left; cbn in Hy.
     + destruct (C1 y Hy) as [H|H]; [now left|right]. now apply Hls2 in H.
@@ -316,5 +328,167 @@ Proof.
     + right. left. exists (with_mc y (lmc head + 1)). split; [right; cbn; apply Hraise; auto; lia|].
       split; [cbn; auto|cbn; lia].
     + right. left. exists y. split; [right; cbn; apply Habove; auto; lia|auto].
+Qed.
+
+(** * One iteration *)
+Definition Popped (head p : loc) : Prop := lseg p = lseg head /\ lmc p <= lmc head.
+Definition NoX (_ : loc) : Prop := False.
+
+Lemma discharge head s d :
+  pinv (Popped head) s d -> (forall p, valid_loc st p -> Popped head p -> alt NoX s d p) -> pinv NoX s d.
+Proof.
+  intros Hp Hd. eapply pinv_step; [exact Hp| | |apply (pk3 _ _ _ Hp)|apply (pk5 _ _ _ Hp)].
+  - intros y Hy. now left.
+  - intros p Hvp [Hc|[Hs|[Hh|[Hi0|Hx]]]]; unfold alt; auto 6.
+Qed.
+
+Lemma body_parents s head covered c d :
+  cinv s -> pinv (Popped head) s d -> valid_loc st head -> (covered = true -> Cov head) ->
+  fns_body dbg st haves s head covered = ROk c ->
+  exists d', dle d' d /\ pinv NoX (SyncRespProofs.ctl_state c) d'.
+Proof.
+  intros [Hhr Hpr Hhu Hpu Hhv Hpv Hhc Hpc Hcl] Hpi Hvh Hcov Hb. unfold fns_body in Hb.
+  apply rbind_ok in Hb as (s1 & E1 & Hb).
+  (* the flush *)
+  assert (Hs1 : exists d1, dle d1 d /\ pinv (Popped head) s1 d1 /\ f_heads s1 = f_heads s /\
+                rep_ok (f_pending s1) /\ quniq (f_pending s1) /\ (forall e b, qin (f_pending s1) e b -> valid_loc st e) /\
+                (forall y, qin (f_pending s1) y true -> Cov (tip y))).
+  { destruct (opt_N_eqb (f_prev s) (lmc head)).
+    - inv E1. exists d. split; [apply dle_refl|]. repeat split; auto.
+    - apply rbind_ok in E1 as ([p' ls] & Ed & E1). apply (lift_q_inv dbg) in Ed.
+      apply rbind_ok in E1 as (c' & Ec & E1). inv E1.
+      destruct (flush_step (Popped head) s d (lmc head) p' ls c' (Some (lmc head)) Hpr Hcl Hpi Ed Ec) as (d1 & L1 & P1).
+      destruct (q_drain_above (f_pending s) (lmc head) Hpr) as (p2 & ls2 & E2 & Hr2 & Hin2 & _ & Hu2). rewrite Ed in E2. inv E2.
+      exists d1. split; auto. split; [exact P1|]. cbn. repeat split; auto.
+      + intros e b Hq. apply Hin2 in Hq as [Hq _]. eauto.
+      + intros y Hq. apply Hin2 in Hq as [Hq _]. eauto. }
+  destruct Hs1 as (d1 & L1 & P1 & Eh & Hpr1 & Hpu1 & Hpv1 & Hpc1).
+  assert (Hhr1 : rep_ok (f_heads s1)) by (rewrite Eh; auto).
+  apply rbind_ok in Hb as (sg & Hsg & Hb).
+  pose proof (get_segment_in _ _ _ Hsg) as [Hin Hidx].
+  assert (Hfs : find_seg (st_segs st) (lseg head) = Some sg) by now apply get_segment_ok.
+  assert (Hr : in_range sg (lmc head)).
+  { destruct Hvh as (sg' & Hf' & Hr'). rewrite Hfs in Hf'. inv Hf'. exact Hr'. }
+  assert (Hpin : forall p, valid_loc st p -> lseg p = lseg head -> in_range sg (lmc p)).
+  { intros p (sg' & Hf' & Hr') Hs. rewrite Hs, Hfs in Hf'. inv Hf'. exact Hr'. }
+  exists d1. split; auto.
+  destruct covered.
+  - (* covered *)
+    specialize (Hcov eq_refl).
+    apply rbind_ok in Hb as (p' & Ep & Hb). apply (lift_q_inv dbg) in Ep.
+    apply rbind_ok in Hb as (h' & Eh' & Hb).
+    pose proof (cover_step (Popped head) s1 d1 head sg p' Ep Hpr1 Hpu1 Hpv1 Hvh Hfs Hcov P1) as P2.
+    destruct (heads_step (Popped head) _ d1 _ true h' (f_cursor s1) Eh' Hhr1 P2) as [P3 _].
+    assert (P4 : pinv NoX (with_h (with_pc s1 p' (f_collected s1) (f_prev s1)) h' (f_cursor s1)) d1).
+    { apply (discharge head); auto. intros p Hvp [Hs Hm]. left. eapply cov_down; [exact Hcov|]. apply same_seg_anc; auto. }
+    destruct (early_stop h'); inv Hb; exact P4.
+  - (* uncovered *)
+    apply rbind_ok in Hb as (best & Eb & Hb).
+    apply rbind_ok in Hb as (s2 & E2 & Hb).
+    assert (Hfin : pinv NoX s2 d1).
+    { destruct best as [hloc|].
+      - apply (scan_have_in st haves) in Eb as (Hinh & Hsegh & Hsh).
+        assert (Hvl : valid_loc st hloc) by (eapply Forall_forall in Hhaves; eauto).
+        assert (Hrl : in_range sg (lmc hloc)) by (apply Hpin; auto).
+        assert (Hch : Cov hloc) by (exists hloc; split; [auto|apply la_refl]).
+        assert (Hlowc : forall p, valid_loc st p -> lseg p = lseg head -> lmc p <= lmc hloc -> Cov p).
+        { intros p Hvp Hs Hm. eapply cov_down; [exact Hch|]. apply same_seg_anc; auto. congruence. }
+        apply rbind_ok in E2 as (h' & Eh' & E2). apply rbind_ok in E2 as (p' & Ep & E2). inv E2.
+        destruct (heads_step (Popped head) s1 d1 _ true h' (advance_cursor haves (f_cursor s1) (seg_longest sg) (length haves)) Eh' Hhr1 P1) as [PA _].
+        destruct (N.ltb_spec (lmc hloc) (seg_longest sg)).
+        + destruct (N.ltb_spec (lmc hloc) u64_max); [|destruct dbg; discriminate].
+          apply (lift_q_inv dbg) in Ep.
+          assert (Hvn : valid_loc st (L (lmc hloc + 1) (lseg head))).
+          { exists sg. cbn. split; auto. unfold in_range in *. lia. }
+          assert (Hbn : below_cov (L (lmc hloc + 1) (lseg head))).
+          { intros sg1 Hf1. cbn in Hf1. rewrite Hfs in Hf1. inv Hf1. right. cbn.
+            replace (lmc hloc + 1 - 1) with (lmc hloc) by lia. rewrite <- Hsegh, loc_eta. exact Hch. }
+          destruct (pend_step (Popped head) _ d1 _ p' Ep Hpr1 Hpu1 Hpc1 Hpv1 Hvn Hbn PA) as [PB Hsent].
+          { intros sg1 Hf1 Hfirst. cbn in Hf1, Hfirst. rewrite Hfs in Hf1. inv Hf1. unfold in_range in *. lia. }
+          apply (discharge head); [exact PB|]. intros p Hvp [Hs Hm].
+          destruct (N.le_gt_cases (lmc p) (lmc hloc)); [left; apply Hlowc; auto|].
+          destruct (Hsent p Hvp Hs ltac:(cbn; lia)) as [Hc|Hs']; unfold alt; auto.
+        + inv Ep. apply (discharge head); [exact PA|]. intros p Hvp [Hs Hm]. left. apply Hlowc; auto.
+          pose proof (Hpin p Hvp Hs). unfold in_range in *. lia.
+      - apply rbind_ok in E2 as (p' & Ep & E2). apply (lift_q_inv dbg) in Ep. apply rbind_ok in E2 as (h' & Eh' & E2). inv E2.
+        destruct (heads_step (Popped head) s1 d1 _ false h' (advance_cursor haves (f_cursor s1) (seg_longest sg) (length haves)) Eh' Hhr1 P1) as [PA Hinh].
+        assert (Hbn : below_cov (seg_first_loc sg)).
+        { intros sg1 Hf1. cbn in Hf1. rewrite Hidx, Hfs in Hf1. inv Hf1. now left. }
+        destruct (pend_step (Popped head) _ d1 _ p' Ep Hpr1 Hpu1 Hpc1 Hpv1 (valid_first _ _ W Hin) Hbn PA) as [PB Hsent].
+        { intros sg1 Hf1 _ p Hp. cbn in Hf1. rewrite Hidx, Hfs in Hf1. inv Hf1.
+          right. right. left. destruct (Hinh p Hp) as (e & b & Hq & Hs & Hm). exists e, b. auto. }
+        apply (discharge head); [exact PB|]. intros p Hvp [Hs Hm].
+        destruct (Hsent p Hvp ltac:(cbn; congruence) ltac:(cbn; pose proof (Hpin p Hvp Hs); unfold in_range in *; lia)) as [Hc|Hs']; unfold alt; auto. }
+    destruct (early_stop (f_heads s2)); inv Hb; exact Hfin.
+Qed.
+
+(** * The loop and the final drain *)
+Lemma loop_parents : forall fuel s s' d,
+  fns_loop fuel dbg st haves s = ROk s' -> cinv s -> pinv NoX s d ->
+  exists d', pinv NoX s' d' /\ cinv s' /\ (forall e b, qin (f_heads s') e b -> b = true).
+Proof.
+  induction fuel as [|f IH]; intros s s' d E Hinv Hp; cbn [fns_loop] in E; [discriminate|].
+  pose proof Hinv as [Hhr Hpr Hhu Hpu Hhv Hpv Hhc Hpc Hcl].
+  apply rbind_ok in E as ([h' r] & Ep & E). apply (lift_q_inv dbg) in Ep.
+  destruct (q_pop (f_heads s) Hhr) as (h2 & r2 & E2 & Hr' & Hspec & Hu'). rewrite Ep in E2. inv E2.
+  destruct r2 as [[head covered]|].
+  - destruct Hspec as (Hin & Hmax & Hsub & Hoth & Hdiff).
+    apply rbind_ok in E as (c & Ec & E).
+    set (s0 := {| f_heads := h2; f_pending := f_pending s; f_collected := f_collected s; f_prev := f_prev s; f_cursor := f_cursor s |}) in *.
+    assert (Hinv0 : cinv s0) by (constructor; cbn; eauto).
+    assert (Hvh : valid_loc st head) by eauto.
+    assert (Hcv : covered = true -> Cov head) by (intros ->; auto).
+    assert (Hp0 : pinv (Popped head) s0 d).
+    { eapply pinv_step; [exact Hp| | |apply (pk3 _ _ _ Hp)|apply (pk5 _ _ _ Hp)].
+      - intros y Hy. now left.
+      - intros p Hvp [Hc|[Hs|[(e & b & Hq & Hs & Hm)|[Hi0|[]]]]]; unfold alt; auto 6.
+        destruct (N.eq_dec (lseg e) (lseg head)) as [Hsh|Hsh].
+        + destruct (quniq_same _ _ _ _ _ Hhu Hq Hin Hsh) as [-> ->]. right. right. right. right. split; auto.
+        + right. right. left. exists e, b. split; [cbn; eapply Hoth; eauto|auto]. }
+    destruct (body_parents s0 head covered c d Hinv0 Hp0 Hvh Hcv Ec) as (d1 & L1 & P1).
+    destruct (body_cover dbg st W haves Hhaves s0 head covered c Hinv0 Hvh Hcv Ec) as (Hic & _ & Hbr).
+    destruct c as [s1|s1]; cbn [SyncRespProofs.ctl_state ctl_state] in *.
+    + eapply IH; eauto.
+    + inv E. exists d1. split; auto. split; auto.
+      specialize (Hbr _ eq_refl). unfold early_stop in Hbr. apply andb_true_iff in Hbr as [Hall _].
+      apply (proj1 (q_all_covered _ (ci_hr _ _ _ Hic))). exact Hall.
+  - inv E. destruct Hspec as [Hn1 Hn2]. exists d. split; [|split].
+    + eapply pinv_step; [exact Hp| | |apply (pk3 _ _ _ Hp)|apply (pk5 _ _ _ Hp)].
+      * intros y Hy. now left.
+      * intros p Hvp [Hc|[Hs|[(e & b & Hq & _)|[Hi0|[]]]]]; unfold alt; auto 6. exfalso. eapply Hn1; eauto.
+    + constructor; cbn; auto.
+      * intros e b Hq. exfalso. eapply Hn2; eauto.
+      * intros e Hq. exfalso. eapply Hn2; eauto.
+    + intros e b Hq. exfalso. eapply Hn2; eauto.
+Qed.
+
+(** what the final [collected] satisfies *)
+Definition entry_ok (c : list loc) (x : loc) : Prop :=
+  valid_loc st x /\ below_cov x /\
+  (forall sg, find_seg (st_segs st) (lseg x) = Some sg -> lmc x = g_first sg ->
+   forall p, In p (prior_list (g_prior sg)) -> Cov p \/ exists y, In y c /\ lseg y = lseg p /\ lmc y <= lmc p).
+
+Lemma final_parents s d c :
+  cinv s -> pinv NoX s d -> (forall e b, qin (f_heads s) e b -> b = true) ->
+  push_bounded_all (f_collected s) (snd (drain_all (f_pending s))) = ROk c ->
+  forall x, In x c -> entry_ok c x.
+Proof.
+  intros Hinv Hp Hcovd Ec x Hx. pose proof Hp as [K1 K2 K3 K5].
+  pose proof (q_drain_all (f_pending s) (ci_pr _ _ _ Hinv)) as Hda.
+  destruct (push_bounded_all_ghost _ _ _ d Ec (ci_cl _ _ _ Hinv) K3 K5) as (d' & L1 & A1 & B1 & C1 & D1).
+  assert (Hcu : forall y, In y c -> inCU s y).
+  { intros y Hy. destruct (C1 y Hy) as [H|H]; [now left|right; now apply Hda]. }
+  destruct (K1 x (Hcu x Hx)) as [Hv Hb]. split; auto. split; auto.
+  intros sg Hf Hfirst p Hpp.
+  pose proof Hf as Hf'. apply find_seg_some in Hf' as [Hin _].
+  destruct (wf_prior _ W sg p Hin Hpp) as [Hvp Hlt].
+  assert (Hhi : forall t, d' = Some t -> t <= lmc p -> False).
+  { intros t Et Lt. pose proof (A1 x t Hx Et). lia. }
+  destruct (K2 x sg (Hcu x Hx) Hf Hfirst p Hpp) as [Hc|[(y & Hy & Hs & Hm)|[(e & b & Hq & Hs & Hm)|[Hi0|[]]]]]; auto.
+  - assert (Hy' : In y (f_collected s) \/ In y (snd (drain_all (f_pending s)))) by (destruct Hy as [?|Hy]; [now left|right; now apply Hda]).
+    destruct (D1 y Hy') as [Hyc|(t & Et & Lt)]; [right; exists y; auto|]. exfalso. eapply Hhi; eauto. lia.
+  - left. rewrite (Hcovd e b Hq) in Hq. eapply cov_down; [apply (ci_hc _ _ _ Hinv e Hq)|].
+    apply same_seg_anc; auto. eapply (ci_hv _ _ _ Hinv); eauto.
+  - exfalso. destruct (hi_dle d d' p L1 Hi0) as (t & Et & Lt). eapply Hhi; eauto.
 Qed.
 End Parents.
